@@ -1,0 +1,9 @@
+//go:build !verif
+
+// Package verifhook provides named observation points for external
+// verification harnesses. Without the `verif` build tag every call is an
+// empty function that the compiler inlines away.
+package verifhook
+
+// At marks an observation point. It does nothing unless built with -tags verif.
+func At(point string, arg any) {}
